@@ -56,6 +56,9 @@ type Case struct {
 	Runs      []RunSpec                  `json:"runs"`
 	DumpDAG   bool                       `json:"dump_dag"`
 	DumpSch   bool                       `json:"dump_schema"`
+	// LoggedOutputs: output id -> milliseconds the log target takes to write the "logged output" message of a step
+	// that ended with this output (engine configuration logged_outputs with a slow log target).
+	LoggedOutputs map[string]int `json:"logged_outputs"`
 	SettleMS  int                        `json:"settle_ms"`
 	Reps      int                        `json:"reps"`
 	Extra     map[string]json.RawMessage `json:"extra"`
@@ -130,6 +133,23 @@ func newLogger() log.Logger {
 	}
 	return log.NewLogger(log.LevelError, log.NewNOOPLogger())
 }
+
+// slowWriter is a log target that takes a while to write the engine's "logged output" messages and drops everything else.
+type slowWriter struct{ delays map[string]int }
+
+func (w slowWriter) Write(m log.Message) error {
+	if strings.HasPrefix(m.Message, "Output ID for step") {
+		for id, ms := range w.delays {
+			if strings.Contains(m.Message, "is \""+id+"\"") {
+				time.Sleep(time.Duration(ms) * time.Millisecond)
+				break
+			}
+		}
+	}
+	return nil
+}
+func (slowWriter) Rotate()      {}
+func (slowWriter) Close() error { return nil }
 
 func newRegistry(logger log.Logger) (step.Registry, *config.Config, error) {
 	cfg := &config.Config{}
@@ -325,10 +345,19 @@ func runCase(c *Case) *Result {
 	}
 
 	logger := newLogger()
+	if len(c.LoggedOutputs) > 0 {
+		logger = log.NewLogger(log.LevelInfo, slowWriter{c.LoggedOutputs})
+	}
 	reg, cfg, err := newRegistry(logger)
 	if err != nil {
 		res.ParseErr = "harness: " + err.Error()
 		return res
+	}
+	if len(c.LoggedOutputs) > 0 {
+		cfg.LoggedOutputConfigs = map[string]*config.StepOutputLogConfig{}
+		for id := range c.LoggedOutputs {
+			cfg.LoggedOutputConfigs[id] = &config.StepOutputLogConfig{LogLevel: log.LevelInfo}
+		}
 	}
 	files := map[string][]byte{}
 	for k, v := range c.Files {
